@@ -113,6 +113,12 @@ func (c *Ctx) errorDisciplineSites(fn *ssa.Function) (sites []errSite, nCalls in
 					cut.Edges[e] = true
 				}
 			case "cmp":
+				// err == Sentinel (a package-level error value): the failure was classified
+				if f.Op.String() == "==" && f.Pos && f.A != nil && f.B != nil {
+					if (exIsCallResult(f.A, ci) && f.B.K == "gval") || (exIsCallResult(f.B, ci) && f.A.K == "gval") {
+						cut.Edges[e] = true
+					}
+				}
 				// status.Code(err) == codes.X
 				for _, side := range []*Ex{f.A, f.B} {
 					if f.Pos && side != nil && side.K == "call" && side.S == "status.Code" && len(side.Args) > 0 && exIsCallResult(side.Args[0], ci) {
@@ -342,12 +348,10 @@ var errToleratedMint = map[string]string{
 	"mint.(*Mint).RequestMeltQuote|(mint/storage.MintDB).GetMintQuoteByPaymentHash":                  "a miss means 'not an invoice of this mint' (C02.R7 decides what follows)",
 	"mint.(*Mint).RequestMeltQuote|(mint/storage.MintDB).GetMeltQuoteByPaymentRequest":               "existence probe: only a non-nil quote matters",
 	"mint.(*Mint).verifyProofs|cashu/nuts/nut10.DeserializeSecret":                                   "a secret that is not a NUT-10 secret is a plain secret (C12.R8 decides the parser)",
-	"mint.(*MintServer).Start|net/http.(*Server).ListenAndServe":                                     "http.ErrServerClosed is the normal shutdown answer",
 	"mint.decodeJsonReqBody|encoding/json.(*Decoder).Decode":                                         "the decoder error is classified by type and always turned into a cashu error (C20.R3 decides that)",
 	"mint/lightning.(*LndClient).OutgoingPaymentStatus|(routerrpc.RouterClient).TrackPaymentV2":      "a context deadline is answered as Pending, every other error returned",
 	"mint/lightning.(*LndClient).OutgoingPaymentStatus|(routerrpc.Router_TrackPaymentV2Client).Recv": "a context deadline is answered as Pending, every other error returned",
 	"mint/lightning.(*LndClient).SendPayment|(lnrpc.LightningClient).SendPaymentSync":                "a context deadline is answered as Pending, every other error returned",
-	"mint/storage/sqlite.InitSQLite|migrate.(*Migrate).Up":                                           "migrate.ErrNoChange is success",
 }
 
 // errToleratedWallet: the same for the wallet side.
